@@ -109,6 +109,15 @@ unsafe impl GlobalAlloc for MonAlloc {
     }
 }
 
+/// The harness's own panic hook allocates (message formatting): keep that out of the measured region.
+pub fn pause() -> bool {
+    ACTIVE.swap(false, Ordering::SeqCst)
+}
+
+pub fn resume(was: bool) {
+    ACTIVE.store(was, Ordering::SeqCst);
+}
+
 fn ensure_arena() {
     unsafe {
         if (*ST.base.get()).is_null() {
@@ -202,6 +211,59 @@ pub fn register(m: &mut HashMap<&'static str, OpFn>) {
             }
             _ => panic!("ARG: kind"),
         }
+    });
+    // mem.msmpanic kind [scalars] [points] which at: as mem.msm, but the caller's point (which=0) or scalar (which=1)
+    // iterator panics at element `at`; the unwinding is caught inside the measured region
+    m.insert("mem.msmpanic", |a| {
+        use curve25519_dalek::traits::MultiscalarMul;
+        use std::panic::{catch_unwind, AssertUnwindSafe};
+        let kind = a.int(0);
+        let scalars = a.sc_list(1);
+        let (which, at) = (a.int(3), a.int(4) as usize);
+        let sc_it = || {
+            scalars.iter().enumerate().map(move |(i, s)| {
+                if which == 1 && i == at {
+                    panic!("caller's scalar iterator failed");
+                }
+                s
+            })
+        };
+        let (r, log) = match kind {
+            0 => {
+                let points = a.ed_list(2);
+                measured(|| {
+                    catch_unwind(AssertUnwindSafe(|| {
+                        let pt_it = points.iter().enumerate().map(|(i, p)| {
+                            if which == 0 && i == at {
+                                panic!("caller's point iterator failed");
+                            }
+                            p
+                        });
+                        hex(EdwardsPoint::multiscalar_mul(sc_it(), pt_it).compress().as_bytes())
+                    }))
+                    .unwrap_or_else(|_| "unwound".into())
+                })
+            }
+            1 => {
+                let points = a.rs_list(2);
+                measured(|| {
+                    catch_unwind(AssertUnwindSafe(|| {
+                        let pt_it = points.iter().enumerate().map(|(i, p)| {
+                            if which == 0 && i == at {
+                                panic!("caller's point iterator failed");
+                            }
+                            p
+                        });
+                        hex(RistrettoPoint::multiscalar_mul(sc_it(), pt_it).compress().as_bytes())
+                    }))
+                    .unwrap_or_else(|_| "unwound".into())
+                })
+            }
+            _ => panic!("ARG: kind"),
+        };
+        let mut o = vec![r];
+        o.extend(log);
+        o
     });
     m.insert("mem.batchinv", |a| {
         let mut scalars = a.sc_list(0);
